@@ -40,3 +40,91 @@ func TestDriveAuthz(t *testing.T) {
 		}
 	}
 }
+
+// TestDriveAuth replays every case of $VERIF_SCHED (ndjson: canonical path into a configuration + one action) on one
+// real chain; each path step and the action are one real transaction signed by the account of the action's class.
+func TestDriveAuth(t *testing.T) {
+	schedPath, tracePath := lib.EnvStr("VERIF_SCHED", ""), lib.EnvStr("VERIF_TRACE", "")
+	if schedPath == "" || tracePath == "" {
+		t.Skip("VERIF_SCHED / VERIF_TRACE not set")
+	}
+	cases, err := lib.ReadNDJSON[AuCase](schedPath)
+	if err != nil {
+		t.Fatal(err)
+	}
+	tw, err := lib.NewTraceWriter(tracePath)
+	if err != nil {
+		t.Fatal(err)
+	}
+	defer tw.Close()
+	w := NewAuthWorld(t)
+	for _, c := range cases {
+		var final AuAct
+		if err := json.Unmarshal(c.Act, &final); err != nil {
+			t.Fatalf("case %s: %v", c.ID, err)
+		}
+		prep := w.Begin(final)
+		tw.Emit(AuLine{Tr: c.ID, I: 0, A: json.RawMessage(`{"op":"Init"}`), Res: "ok", Prep: prep, St: w.State()})
+		if prep == "" {
+			prep = w.AfterStep(final)
+		}
+		steps := append(append([]json.RawMessage{}, c.Path...), c.Act)
+		for i, raw := range steps {
+			var a AuAct
+			if err := json.Unmarshal(raw, &a); err != nil {
+				t.Fatalf("case %s step %d: %v", c.ID, i+1, err)
+			}
+			res, errStr := w.Exec(a)
+			st := w.State()
+			p := prep
+			prep = ""
+			if i < len(steps)-1 {
+				if e := w.AfterStep(final); e != "" {
+					prep = e
+				}
+			}
+			tw.Emit(AuLine{Tr: c.ID, I: i + 1, A: raw, Res: res, Err: errStr, Prep: p, St: st})
+		}
+	}
+}
+
+// TestDriveCallbacks executes the transaction-level cases of $VERIF_SCHED on the callbacks test application (each case:
+// honest set-up, then ONE transaction with the chosen gas limit that triggers the callback) and, if $VERIF_SCHED_FN is
+// set, the function-level triples on types.GetCallbackData.
+func TestDriveCallbacks(t *testing.T) {
+	schedPath, tracePath := lib.EnvStr("VERIF_SCHED", ""), lib.EnvStr("VERIF_TRACE", "")
+	if schedPath == "" || tracePath == "" {
+		t.Skip("VERIF_SCHED / VERIF_TRACE not set")
+	}
+	cases, err := lib.ReadNDJSON[CbCase](schedPath)
+	if err != nil {
+		t.Fatal(err)
+	}
+	tw, err := lib.NewTraceWriter(tracePath)
+	if err != nil {
+		t.Fatal(err)
+	}
+	defer tw.Close()
+	if fnPath := lib.EnvStr("VERIF_SCHED_FN", ""); fnPath != "" {
+		fn, err := lib.ReadNDJSON[FnCase](fnPath)
+		if err != nil {
+			t.Fatal(err)
+		}
+		fw, err := lib.NewTraceWriter(lib.EnvStr("VERIF_TRACE_FN", tracePath+".fn"))
+		if err != nil {
+			t.Fatal(err)
+		}
+		RunFn(fn, func(l FnLine) { fw.Emit(l) })
+		fw.Close()
+	}
+	if len(cases) == 0 {
+		return
+	}
+	w := NewCbWorld(t)
+	if err := w.Calibrate(cases); err != nil {
+		t.Fatal(err)
+	}
+	for _, c := range cases {
+		w.Run(c, func(l CbLine) { tw.Emit(l) })
+	}
+}
